@@ -277,6 +277,76 @@ static void ReadLinearExpr_h(int num_terms, int h) { g_h_reads++; g_read_terms =
                    stubs=['Handler::OnLinearObjExpr (ghost record)', 'ReadLinearExpr(n, handler) (proved under C02)', 'NLReader::ReadUInt'])
 
 
+PF = 'include/mp/flat/problem_flattener.h'
+
+
+def flatten_objective_harness():
+    """ProblemFlattener::Convert(MutObjective): the objective handed to the converter (AddObjective) is the objective read - its sense, the
+    linear part of the file (ToLinTerms(obj.linear_expr())), and of the nonlinear part's flattened form its linear terms, its quadratic terms
+    and its CONSTANT (carried by a fixed variable with coefficient 1) - delivered exactly once, with sorted (merged) terms.
+    Containers and the expression visitor are ghost objects: what is checked is which pieces reach AddObjective."""
+    parts = ['#include "mp_shim.h"\n#include <math.h>\nint vp_one;\n', '''
+typedef struct { double c; int lin_id, qp_id; } EExpr;
+enum { obj_MIN = 0, obj_MAX = 1, CTX_POS = 1, CTX_NEG = 2 };
+int g_type, g_file_lin; _Bool g_has_nl; EExpr g_flat;            /* the objective as read, and the flattened form of its nonlinear part */
+int g_le_file, g_le_expr; double g_le_const; int g_le_nconst; _Bool g_le_sorted, g_qp_sorted; double g_fixed_val; int g_delivered;
+static int vp_src_add(void) { return 1; }
+static int vp_tgt_add(void) { return 2; }
+static void vp_copylink(int a, int b) { }
+static int obj_linear_expr(void) { return g_file_lin; }
+static int obj_nonlinear_expr(void) { return g_has_nl; }
+static int obj_type(void) { return g_type; }
+static int ToLinTerms(int lin) { g_le_file = lin; return 0; }
+static EExpr Visit(int e) { return g_flat; }
+static void le_add(int lin) { __CPROVER_assert(g_le_expr == 0, "the linear terms of the nonlinear part are added once"); g_le_expr = lin; g_le_sorted = 0; }
+static int MakeFixedVar(double v) { g_fixed_val = v; return 7; }
+static void le_add_term(double coef, int var) { __CPROVER_assert(var == 7 && coef == 1.0, "the constant enters as 1 * (variable fixed at the constant)"); g_le_const = g_fixed_val; g_le_nconst++; g_le_sorted = 0; }
+static void le_sort_terms(void) { g_le_sorted = 1; }
+static void eexpr_qp_sort(void) { g_qp_sorted = 1; }
+static double cvt_MinusInfty(void) { return -__builtin_inf(); }
+static double cvt_Infty(void) { return __builtin_inf(); }
+static void cvt_PropagateResult2LinTerms(int le, double lb, double ub, int ctx) { __CPROVER_assert(ctx == (g_type == obj_MAX ? CTX_POS : CTX_NEG), "context of a maximised / minimised objective"); }
+static void cvt_PropagateResult2QuadTerms(int qp, double lb, double ub, int ctx) { __CPROVER_assert(ctx == (g_type == obj_MAX ? CTX_POS : CTX_NEG), "context of a maximised / minimised objective"); }
+static int le_coefs(void) { return 11; }
+static int le_vars(void) { return 12; }
+static int vp_make_lo(int type, int coefs, int vars) {
+  __CPROVER_assert(type == g_type, "the objective is delivered with the sense it was read with");
+  __CPROVER_assert(coefs == 11 && vars == 12, "the linear objective is built from the collected terms");
+  return 21; }
+static int vp_make_qo(int lo, int qp) { __CPROVER_assert(lo == 21, "the quadratic objective wraps the linear one"); return qp; }
+static void cvt_AddObjective(int qp) {
+  __CPROVER_assert(g_le_file == g_file_lin, "the linear part of the file is delivered");
+  __CPROVER_assert(g_has_nl ? g_le_expr == g_flat.lin_id : g_le_expr == 0, "the linear terms of the flattened nonlinear part are delivered (and nothing else)");
+  __CPROVER_assert(g_has_nl ? ((g_le_nconst == 1 && g_le_const == g_flat.c) || (g_le_nconst == 0 && g_flat.c == 0.0)) : g_le_nconst == 0,
+                   "the constant of the nonlinear part is delivered: the objective handed on has the same value as the one read");
+  __CPROVER_assert(g_has_nl ? qp == g_flat.qp_id : qp == 0, "the quadratic terms of the flattened nonlinear part are delivered");
+  __CPROVER_assert(g_le_sorted && g_qp_sorted, "terms are sorted / merged before delivery (repeated terms would be lost)");
+  g_delivered++;
+}
+''',
+             Fn(PF, r'void Convert\(typename ProblemType::MutObjective obj\)', 'void Convert_objective(void)',
+                contract='__CPROVER_requires(g_flat.c == g_flat.c && g_flat.lin_id > 0 && g_flat.qp_id > 0 && g_file_lin > 0 && g_delivered == 0 && g_le_expr == 0 && g_le_nconst == 0 && !g_le_sorted && !g_qp_sorted) '
+                         '__CPROVER_ensures(g_delivered == 1) __CPROVER_assigns(g_le_file, g_le_expr, g_le_const, g_le_nconst, g_le_sorted, g_qp_sorted, g_fixed_val, g_delivered)',
+                subst=[(r'GetValuePresolver\(\)\.GetSourceNodes\(\)\.GetObjValues\(\)\(\)\.Add\(\)', 'vp_src_add()', 1),
+                       (r'GetValuePresolver\(\)\.GetTargetNodes\(\)\.GetObjValues\(\)\(\)\.Add\(\)', 'vp_tgt_add()', 1),
+                       (r'GetCopyLink\(\)\.AddEntry\(\s*\{([^{}]*)\}\s*\);', r'vp_copylink(\1);', 1),
+                       (r'pre::AutoLinkScope<FlatConverterType> auto_link_scope\{[^{}]*\};', '', 1),
+                       (r'NumericExpr e\b', 'int e', 1), (r'EExpr eexpr;', 'EExpr eexpr = {0.0, 0, 0};', 1), (r'MP_DISPATCH\(\s*Visit\(e\)\s*\)', 'Visit(e)', 1),
+                       (r'eexpr\.GetQPTerms\(\)\.sort_terms\(\)', 'eexpr_qp_sort()', 1), (r'eexpr\.GetQPTerms\(\)', 'eexpr.qp_id', -1),
+                       (r'eexpr\.GetLinTerms\(\)', 'eexpr.lin_id', 1), (r'eexpr\.constant_term\(\)', 'eexpr.c', -1),
+                       (r'\b(le|obj)\.(\w+)\(', r'\1_\2(', -1), (r'GetFlatCvt\(\)\.(\w+)\(', r'cvt_\1(', -1),
+                       (r'obj::MAX', 'obj_MAX', 1), (r'Context::(CTX_\w+)', r'\1', 2), (r'std::move\(', '(', -1),
+                       (r'LinearObjective lo \{([^{}]*)\};', r'int lo = vp_make_lo(\1);', 1), (r'QuadraticObjective\{([^{}]*)\}', r'vp_make_qo(\1)', 1)],
+                label='mp::ProblemFlattener::Convert(MutObjective)', nmatches=1), '''
+void harness(void) { vp_one = 1; g_type = nondet_bool() ? obj_MAX : obj_MIN; g_file_lin = nondet_int(); g_has_nl = nondet_bool();
+  g_flat.c = nondet_double(); g_flat.lin_id = nondet_int(); g_flat.qp_id = nondet_int();
+  g_delivered = 0; g_le_expr = 0; g_le_nconst = 0; g_le_sorted = 0; g_qp_sorted = 0;
+  Convert_objective(); VP_REACH("normal return"); }
+''']
+    return Harness('C12.ProblemFlattener.Convert.objective', 'C12', parts, enforce='Convert_objective',
+                   stubs=['LinTerms / EExpr / QuadTerms containers and the expression visitor (ghost objects)', 'value-presolve link bookkeeping (no-ops)'])
+
+
 def lemma_harness():
     names = ['resulting_nobj', 'NeedObj', 'resulting_obj_index', 'solver_objno_used', 'solver_notify_obj_added',
              'solver_objno_specified', 'solver_is_objno_specified', 'vp_OnHeader_objno_check']
@@ -356,5 +426,5 @@ def replay(lead, inputs, obs):
 
 def harnesses(tier, seed):
     hs = [fn_harness(n) for n in ALL]
-    hs += [setobjno_harness(), onheader_harness(), osegment_harness(), gsegment_harness(), lemma_harness()]
+    hs += [setobjno_harness(), onheader_harness(), osegment_harness(), gsegment_harness(), lemma_harness(), flatten_objective_harness()]
     return hs
